@@ -1100,6 +1100,17 @@ VARIANTS += [
          edits=[dict(file="ipa-core/src/sharding.rs", find='        (0..self.0).map(Self)', replace='        (1..self.0).map(Self)')]),
 ]
 
+VARIANTS += [
+    dict(prop="C13", name="rendezvous-arrival-does-not-wake", expect=['RENDEZVOUS', 'add_stream:Waiting=>wake'],
+         edits=[dict(file="ipa-core/src/helpers/transport/stream/collection.rs", find='                    let StreamState::Waiting(waker) =\n                        std::mem::replace(rs, StreamState::Ready(stream))\n                    else {\n                        unreachable!()\n                    };\n                    waker.wake();\n', replace='                    let StreamState::Waiting(waker) =\n                        std::mem::replace(rs, StreamState::Ready(stream))\n                    else {\n                        unreachable!()\n                    };\n                    drop(waker);\n')]),
+    dict(prop="C13", name="rendezvous-arrival-if-let", benign=True,
+         edits=[dict(file="ipa-core/src/helpers/transport/stream/collection.rs", find='                    let StreamState::Waiting(waker) =\n                        std::mem::replace(rs, StreamState::Ready(stream))\n                    else {\n                        unreachable!()\n                    };\n                    waker.wake();\n', replace='                    if let StreamState::Waiting(waker) =\n                        std::mem::replace(rs, StreamState::Ready(stream))\n                    {\n                        waker.wake();\n                    }\n')]),
+    dict(prop="C13", name="rendezvous-consumed-answers-none", expect=['RENDEZVOUS', 'add_waker:Completed=>panic'],
+         edits=[dict(file="ipa-core/src/helpers/transport/stream/collection.rs", find='                StreamState::Completed => {\n                    drop(streams);\n                    panic!("{key:?} stream has been consumed already")\n                }\n', replace='                StreamState::Completed => None,\n')]),
+    dict(prop="C13", name="rendezvous-second-stream-replaces", expect=['RENDEZVOUS', 'add_stream:Ready=>panic'],
+         edits=[dict(file="ipa-core/src/helpers/transport/stream/collection.rs", find='                rs @ (StreamState::Ready(_) | StreamState::Completed) => {\n                    let state = format!("{rs:?}");\n                    let key = entry.key().clone();\n                    drop(streams);\n                    panic!("{key:?} entry state expected to be waiting, got {state:?}");\n                }\n', replace='                rs @ StreamState::Ready(_) => {\n                    // the peer retried its request: keep the newer stream\n                    *rs = StreamState::Ready(stream);\n                }\n                rs @ StreamState::Completed => {\n                    let state = format!("{rs:?}");\n                    let key = entry.key().clone();\n                    drop(streams);\n                    panic!("{key:?} entry state expected to be waiting, got {state:?}");\n                }\n')]),
+]
+
 # rules shared between properties: the same edit must be reported under the other property too
 VARIANTS += [dict(v, prop="C05", name=v["name"] + "@C05") for v in VARIANTS
              if v["name"] in ("h1-shuffle-empty-shard-leaves", "sharded-shuffle-empty-shard-leaves", "reshard-closes-channels-on-input-error", "reshard-closes-before-matching-none")]
